@@ -208,6 +208,10 @@ func checkC17(c C17Case, rec *obs.Recorder) *obs.Violation {
 			if err != nil {
 				return obs.Violf("history [%s]: unmarshal: %v", strings.Join(hist, ","), err)
 			}
+			// the caller's buffer is the caller's: it is reused for something else afterwards
+			for i := range ser {
+				ser[i] = 0xAA
+			}
 			live = append(live, c17Tok{tok: nt, signed: append([]int{}, parent.signed...), sealed: parent.sealed})
 			if v := observe(len(live)-1, &parent); v != nil {
 				return v
